@@ -38,7 +38,7 @@ ASSUMPTIONS = [
     "removing the last key of a section is hand-edited as deleting the line and the then-empty section header",
     "values containing line continuations are not used for --list-items comparisons",
 ]
-REQUIRED = {"padded_value:main": 5, "padded_value:ConfigParser": 5, "colon_value:make_config_parser": 8, "invalid:add_twice:make_config_parser": 2, "invalid:add_twice_ws:make_config_parser": 2, "remove_then_add": 5, "override_empty_value": 3, "same_key_two_sections": 4, "valid": 80, "invalid": 30, "op:override": 60, "op:remove": 40, "op:add": 40, "whitespace_key": 40,
+REQUIRED = {"both_directions_of_a_pair": 4, "padded_value:main": 5, "padded_value:ConfigParser": 5, "colon_value:make_config_parser": 8, "invalid:add_twice:make_config_parser": 2, "invalid:add_twice_ws:make_config_parser": 2, "remove_then_add": 5, "override_empty_value": 3, "same_key_two_sections": 4, "valid": 80, "invalid": 30, "op:override": 60, "op:remove": 40, "op:add": 40, "whitespace_key": 40,
             "removes_last_key": 5, "repeated_override": 10, "route:ConfigParser": 30, "route:make_config_parser": 30,
             "section:Table-Form": 5, "section:Species": 5, "listing": 40}
 
@@ -221,7 +221,27 @@ def _case(draw, targets=None, invalid=False, repeat=False, cross=False, route=No
                 bad = {"op": "override", "section": "Nowhere", "key0": k, "key": k, "value": v}
             bad["invalid"] = why
             ops.insert(draw(st.integers(0, len(ops))), bad)
-    if cross:
+    if cross == "additions":
+        # several additions to one order-sensitive section: they are appended in the order given
+        labels = draw(st.permutations(["Xa-Ya", "Xb-Yb", "Xa-Yb", "Xb-Ya", "Xa-Xa", "Yb-Yb"]))[:draw(st.integers(3, 5))]
+        ops[:] = [o for o in ops if not (o["op"] == "add" and o["section"] == "Pair")]
+        for i, lab in enumerate(labels):
+            ops.append({"op": "add", "section": "Pair", "key0": lab, "key": _ws(draw, lab), "value": "as.constant %d" % (i + 1), "many": True})
+    elif cross == "directions":
+        # both directions of one pair of species in a Finnis-Sinclair density section: A->B and B->A are two items
+        den = [(k, v) for n, k, v in keys if n == "EAM-Density" and "->" in k]
+        pairs_ = [(k, v) for k, v in den if k.split("->")[0] != k.split("->")[1] and
+                  any(k2 == "%s->%s" % tuple(reversed(k.split("->"))) for k2, _ in den)]
+        if pairs_:
+            k, v = draw(st.sampled_from(pairs_))
+            rk = "%s->%s" % tuple(reversed(k.split("->")))
+            ops[:] = [o for o in ops if not (o["section"] == "EAM-Density" and o["key0"] in (k, rk))]
+            ops.append({"op": "override", "section": "EAM-Density", "key0": k, "key": _ws(draw, k), "value": "as.polynomial 0 %d" % draw(st.integers(1, 9)), "directions": True})
+            if draw(st.booleans()):
+                ops.append({"op": "override", "section": "EAM-Density", "key0": rk, "key": _ws(draw, rk), "value": "as.polynomial 0 0 0.%d" % draw(st.integers(1, 9))})
+            else:
+                ops.append({"op": "remove", "section": "EAM-Density", "key0": rk, "key": rk})
+    elif cross:
         # the same key in two different sections (an element label in [EAM-Embed] and [EAM-Density]):
         # two options that must not be confused with each other
         emb = [(n, k, v) for n, k, v in keys if n == "EAM-Embed"]
@@ -263,7 +283,9 @@ def strata(tier):
             ("invalid", _case(None, True), 1), ("repeated", _case(None, False, True), 2),
             ("colon_values:ConfigParser", _case(None, route="ConfigParser", colon=True), 0.5),
             ("colon_values:make_config_parser", _case(None, route="make_config_parser", colon=True), 1),
-            ("same_key_two_sections", _case(["setfl", "DL_POLY_EAM", "excel_eam", "eam_adp", "lammps_eam_alloy"], False, False, True), 2)] + [
+            ("same_key_two_sections", _case(["setfl", "DL_POLY_EAM", "excel_eam", "eam_adp", "lammps_eam_alloy"], False, False, True), 2),
+            ("both_directions", _case(["setfl_fs", "DL_POLY_EAM_fs", "excel_eam_fs"], False, False, "directions"), 1),
+            ("several_additions", _case(["LAMMPS", "GULP", "DL_POLY"], False, False, "additions"), 1)] + [
             ("invalid:%s:%s" % (w, r), _case(None, w, route=r), 0.15) for w in INVALID for r in ("ConfigParser", "make_config_parser")
             if not (w == "remove_twice" and r == "make_config_parser")]
 
@@ -383,6 +405,10 @@ def check_case(case):
             cls.append("invalid:%s:%s" % (o["invalid"], route))
         if o.get("colon"):
             cls.append("colon_value:" + route)
+        if o.get("directions"):
+            cls.append("both_directions_of_a_pair")
+        if o.get("many"):
+            cls.append("several_additions:" + route)
     cls.extend(sorted(set("op:" + o["op"] for o in ops)))
     cls.extend(sorted(set("section:" + o["section"].split(":")[0] for o in ops)))
     if any(o["key"] != o["key0"] for o in ops):
